@@ -34,8 +34,9 @@ open World Ark.Props.C01World
 
 /-- a live entity has a component list -/
 theorem TInv.compsOf_live {w : World} {fl : List Nat} (h : TInv w fl) {e : Ent} (h2 : 2 ≤ e.id)
-    (hnf : e.id ∉ fl) (ha : w.alive e = true) : ∃ (cs : List Comp), compsOf w e.id = some cs := by
-  obtain ⟨t, row, he, htm, _⟩ := h.link.live_entry h2 hnf ha
+    (hnf : e.id ∉ fl) (ha : w.alive e = true) (hsl : e.id < w.pool.ents.length) :
+    ∃ (cs : List Comp), compsOf w e.id = some cs := by
+  obtain ⟨t, row, he, htm, _⟩ := h.link.live_entry h2 hnf ha hsl
   obtain ⟨hT, _, _⟩ := h.link.idx.indexed he htm
   exact ⟨(w.tbl t).ids, by simp only [compsOf, he, htm, if_false, hT, Option.map_some]⟩
 
@@ -82,12 +83,14 @@ structure XchgRelPost (w : World) (fl : List Nat) (e : Ent) (add rem : List Comp
     `XchgRelPost`. -/
 theorem opExchange_rel_spec (run : ProbeRunner) (p : Path) {w : World} {fl : List Nat}
     (h : TInv w fl) (hl : w.isLocked = false) (hno : ∀ (evt : Nat), w.obs.hasObservers evt = false)
-    {e : Ent} (h2 : 2 ≤ e.id) (hnf : e.id ∉ fl) (ha : w.alive e = true) {add rem : List Comp}
+    {e : Ent} (h2 : 2 ≤ e.id) (hnf : e.id ∉ fl) (ha : w.alive e = true)
+    (hsl : e.id < w.pool.ents.length) {add rem : List Comp}
     {rels : List RelID} (hp : XchgPre w e add rem rels) (vals : List (Comp × Val))
+    (htin : ∀ (r : RelID), r ∈ rels → r.target.id < w.pool.ents.length)
     (hfew : w.tables.length < maxU32) (hrows : w.entities.length + 1 < 2 ^ 32) :
     ∃ (w' : World), opExchange run p e add vals rem rels w = .ok () w' ∧
       XchgRelPost w fl e add rem vals rels w' := by
-  obtain ⟨w2, hcore, cp⟩ := exchangeCore_rel_spec run h hl hno h2 hnf ha hp hfew hrows
+  obtain ⟨w2, hcore, cp⟩ := exchangeCore_rel_spec run h hl hno h2 hnf ha hsl hp htin hfew hrows
   have hk256 : w.kinds.length ≤ 256 := Nat.le_trans h.kindsLe.1 h.kindsLe.2
   have hpre : preCheck p add rels w = .ok () w := by
     apply preCheck_ok_of_valid
@@ -100,8 +103,8 @@ theorem opExchange_rel_spec (run : ProbeRunner) (p : Path) {w : World} {fl : Lis
     intro evt; rw [cp.obs]; exact hno evt
   have hal2 : ∀ (x : Ent), w2.alive x = w.alive x := fun x => by simp only [World.alive, cp.pool]
   have ha2 : w2.alive e = true := by rw [hal2]; exact ha
-  have wp := cp.tinv.writeValsRel h2 hnf ha2 vals
-  obtain ⟨cs, hcs⟩ := h.compsOf_live h2 hnf ha
+  have wp := cp.tinv.writeValsRel h2 hnf ha2 (by rw [cp.pool]; exact hsl) vals
+  obtain ⟨cs, hcs⟩ := h.compsOf_live h2 hnf ha hsl
   refine ⟨_, opExchange_rel_eq run p e add vals rem rels w ha hpre hcore hno2, ?_⟩
   exact
     { tinv := wp.tinv
@@ -323,6 +326,7 @@ theorem Good.exchange (run : ProbeRunner) (p : Path) {w : World} (h : Good w) {e
     (ha : w.alive e = true) (hidx : (w.index e.id).1 ≠ maxU32) (hlt : e.id < w.entities.length)
     {add rem : List Comp} {rels : List RelID} (hp : XchgPre w e add rem rels)
     (vals : List (Comp × Val))
+    (htin : ∀ (r : RelID), r ∈ rels → r.target.id < w.pool.ents.length)
     (hfew : w.tables.length < maxU32) (hrows : w.entities.length + 1 < 2 ^ 32) :
     panicOf (opExchange run p e add vals rem rels w) = none ∧
       Good (opExchange run p e add vals rem rels w).state := by
@@ -331,7 +335,8 @@ theorem Good.exchange (run : ProbeRunner) (p : Path) {w : World} (h : Good w) {e
     simp only [World.index, List.getD_eq_getElem?_getD, List.getElem?_eq_getElem hlt,
       Option.getD_some]
   obtain ⟨h2, hnf⟩ := ht.link.indexed_live hent hidx
-  obtain ⟨w', hok, post⟩ := opExchange_rel_spec run p ht hl hno h2 hnf ha hp vals hfew hrows
+  obtain ⟨w', hok, post⟩ := opExchange_rel_spec run p ht hl hno h2 hnf ha
+    (by rw [← ht.link.lenEq]; exact hlt) hp vals htin hfew hrows
   rw [hok]
   have hl' : w'.isLocked = false := by
     show w'.locks.isLocked = false
